@@ -29,9 +29,6 @@ RULE = ("One evaluation = one seeded execution: each side with or without a "
         "runs.")
 RULE += (' Relay topologies: none, one shared, sender-only, dead, or one relay per side (two hints of equal priority).')
 RULE += (" In a third of the runs one party's application cancels connect() while the race is open; sockets readable in the same reactor iteration are then still read once after loseConnection().")
-RULE += (" In half of the runs sockets that were readable in the reactor "
-         "iteration in which the Sender decides are still read once after "
-         "their loseConnection() (late contenders are told 'nevermind').")
 RULE += (" Strangers include a host named in a relay hint that answers the "
          "relay request with 'ok' and, in the same write, bytes that are not "
          "the peer's handshake, and a key holder that speaks as a Sender "
@@ -376,7 +373,12 @@ def run_one(seed, tape, opts):
     sim.fault_events = fault_events
     go_writes = []
 
-    go_batch = tape.choose(2, "go_batch") == 0 and not focus
+    # (same-iteration reads at the Sender's decision were tried here and taken
+    # out again: the window was global, so a connection whose own handshake
+    # timer had just fired - loseConnection() from a timer, where no read of
+    # the same iteration can follow - still read "go": a false
+    # C07.winner_closed. Cancelled contenders are "hung up" anyway.)
+    go_batch = False
 
     def on_write(end, data):
         w._on_write(end, data)
